@@ -324,7 +324,7 @@ fn run(ctx: &mut Ctx) {
     }
     ctx.exhaustive(&format!("all {} event-kind sequences of length <= {} over the nine non-Eof kinds (every third also followed by Eof), each under 4 of the 30 (indent char, width 0..=9) combinations in rotation", total, maxlen));
     // random long / deep / unbalanced
-    let n = ctx.scaled(t.pick(300_000, 3_000_000)) / ctx.nshards as u64;
+    let n = ctx.scaled(t.pick(300_000, 20_000_000)) / ctx.nshards as u64;
     for _ in 0..n {
         let lim = if r.chance(1, 10) { 400 } else { 40 };
         let len = 1 + r.below(lim);
